@@ -49,7 +49,7 @@ def stepCa (cfg : Cfg) (ws : List String) (prev obs : Json) (clock : Nat) (repub
   let (runs, force) := republishRuns ws prev
   let doRepublish (m : CaM) (a : Acc) : CaM × Acc :=
     if runs > 0 && !(jisNull postCa) then
-      let (o, re) := reissueIfNeeded m.objs force clock cfg.timing (mkIns cfg.timing m.objs post)
+      let (o, re) := reissueIfNeeded m.objs force clock cfg.timing (mkIns cfg.timing m.objs post clock)
       ({ m with objs := o }, a.tag (if re then (if force then "republish-forced" else "republish-due") else "republish-notdue"))
     else (m, a)
   -- harness op `age <ca> <which> <hours>`: the next-update of the named sets is rewritten in storage
